@@ -368,6 +368,12 @@ def gen_net_line(rng, nsteps, idmode):
                     b''.join(bytes([len(l)]) + l for l in nm.split(b'.') if l) + b'\0' + struct.pack('>HH', 1, 1) + \
                     b'\xc0\x0c' + struct.pack('>HHIH', 1, 1, 60, 4) + bytes(rng.randrange(256) for _ in range(4))
             steps.append('R,%s' % hexs(pkt))
+            if len(pkt) >= 12 and rng.randrange(5) == 0:
+                # right after a full reply: its first byte alone, and nothing at all -- the id of a datagram shorter than two
+                # bytes reads as 0, whatever the previous reply left in the receive buffer
+                steps.append('R,%s' % hexs(pkt[:1]))
+                if rng.randrange(2):
+                    steps.append('R,-')
     return 'NET %d %s %s' % (bind_port, top.hex(), ';'.join(steps))
 
 
